@@ -30,8 +30,7 @@ def lemma(self, h, h2):
     self.add_alt(h2)
     assert self.check_alt(h)
 ''', properties=["C01"], params={"self": "obj:BloomFilter", "h": "list[int]", "h2": "list[int]"},
-      requires=["inv_bloom(self)", "len(h) >= self._number_hashes", "len(h2) >= self._number_hashes"],
-      variants=_VARS)
+      requires=["inv_bloom(self)", "len(h) >= self._number_hashes", "len(h2) >= self._number_hashes"])
 
 lemma("P.C01.bits_only_grow_under_add", '''
 def lemma(self, h, k):
@@ -39,8 +38,7 @@ def lemma(self, h, k):
     self.add_alt(h)
     assert implies(was, bit(self._bloom, k))
 ''', properties=["C01"], params={"self": "obj:BloomFilter", "h": "list[int]", "k": "int"},
-      requires=["inv_bloom(self)", "len(h) >= self._number_hashes", "0 <= k < 8 * self._bloom_length"],
-      variants=_VARS)
+      requires=["inv_bloom(self)", "len(h) >= self._number_hashes", "0 <= k < 8 * self._bloom_length"])
 
 lemma("P.C01.union_reports_keys_of_both_operands", '''
 def lemma(self, second, key):
